@@ -55,6 +55,9 @@ SOURCES = [
     'else { return 3.5 weighted 1, -4 weighted 1 } }',
     "/* a *//* b */ def s5 /**/ { /***/ splitters: /* s */ uid return /* r */ 'x' weighted 0.5, /* t */ 'y' weighted 0.5 } // end",
     chain(12),
+    # float literals that need all 17 significant digits (operands, tuple members, group values)
+    'def s7 { splitters: uid if n >= 0.000012345678901234567 and n not in (12345678901234567168.0, 0.30000000000000004) '
+    '{ return 0.000012345678901234567 weighted 1, 98765432109876543210.0 weighted 1 } else { return 0.1000000000000000055 weighted 1, 2.675 weighted 1 } }',
 ]
 PANEL = [dict(uid=u, sid=s, plan=p, n=n, f0=n % 3, f1=1, f2=2, f3=3, f4=n)
          for u, s, p, n in [("u1", "s", "pro", 1), (2, "t", "a", 3), ("u3", "s", "c", 40), ("é", 4, "free", 2), (5.5, None, "b", 7),
@@ -214,7 +217,8 @@ def cold_start(ctx, ref):
             out = os.path.join(tmp, f"cold{i}.json")
             env = dict(os.environ, PYTHONPATH=f"{HOME}:{os.path.join(REPO, 'src')}")
             try:
-                p = subprocess.run([PYTHON, "-B", "-m", "pyabv.cold_child", str(nthreads), out], env=env, cwd=HOME, capture_output=True, timeout=300)
+                flags = ["--fast-clock"] if i % 3 == 1 else []
+                p = subprocess.run([PYTHON, "-B", "-m", "pyabv.cold_child", str(nthreads), out, *flags], env=env, cwd=HOME, capture_output=True, timeout=300)
             except subprocess.TimeoutExpired:
                 ctx.set_inconclusive("cold-start child watchdog fired")
                 return
@@ -336,7 +340,12 @@ def run(ctx):
             errors = [[] for _ in range(nthreads)]
             seed = rnd.getrandbits(32)
             sys.setrecursionlimit(base_limit)
-            with ParseOverlap(im) as ov:
+            from pyabv.impl import host_settings
+
+            fast_clock = (run_i + ctx.shard) % 2 == 0 and workload in ("W1", "W5")
+            if fast_clock:
+                ctx.count("runs/with-a-clock-running-3600x-fast")
+            with ParseOverlap(im) as ov, host_settings("clock" if fast_clock else None):
                 if inject:
                     inter.start(p=0.125, seed=seed)
                 start = threading.Barrier(nthreads)
